@@ -653,6 +653,20 @@ pub fn families(args: &[String]) {
                         variants.push(u.concat());
                     }
                 }
+                // byte-length-preserving substitutions: two (three) single-byte characters replaced by one
+                // two-byte (three-byte) character, so that byte offsets stay plausible but fall inside a character
+                for i in 0..base.len() {
+                    if i + 2 <= base.len() {
+                        let mut t = base.clone();
+                        t.splice(i..i + 2, ["é".to_string()]);
+                        variants.push(t.concat());
+                    }
+                    if i + 3 <= base.len() {
+                        let mut t = base.clone();
+                        t.splice(i..i + 3, ["日".to_string()]);
+                        variants.push(t.concat());
+                    }
+                }
                 for v in variants {
                     run(json!({"op": op, "s": chars(&v)}), &mut w, &mut total, &mut classes, &mut samples);
                     if op == "rfc_any" {
